@@ -600,6 +600,13 @@ def run_contract(cls, tier="quick", cross=False, no_replay=()):
             r.verdict = verdict
             r.backend = "+".join(sorted(backends)) or None
             r.seconds = time.time() - t0
+            if verdict == "unknown" and cls.kind not in ("canary",) and r.name not in no_replay:
+                # undecided by the solvers: the contract's native cross-check of this function may still find a
+                # concrete failing input (the runner turns undecided + confirmed into a violation)
+                try:
+                    r.replay = c.replay(case, name, None, None)
+                except Exception as e:
+                    r.replay = {"error": "replay crashed: %r" % e, "confirmed": False}
             if verdict == "refuted" and r.name not in no_replay:
                 try:
                     r.replay = c.replay(case, name, r.model, r.failing_path)
